@@ -430,3 +430,11 @@ mod tests {
         assert_eq!(active, active_only);
     }
 }
+
+#[cfg(feature = "verif")]
+impl RetransEntry {
+    /// Verification hook: `(msg_ctr, counter)`
+    pub fn verif_parts(&self) -> (u32, u16) {
+        (self.msg_ctr, self.counter)
+    }
+}
